@@ -50,8 +50,13 @@ func caseGen() *rapid.Generator[Case] {
 		n := rapid.IntRange(2, maxW).Draw(t, "goroutines")
 		palette := rapid.SliceOfN(rapid.SampledFrom(Styles), 1, 3).Draw(t, "palette")
 		c := Case{Registry: rapid.Bool().Draw(t, "registry"), Reps: 3}
+		if rapid.IntRange(0, 2).Draw(t, "proto?") == 0 {
+			c.Proto = rapid.IntRange(1, 9).Draw(t, "proto")
+		}
+		c.Barrier = rapid.Bool().Draw(t, "barrier")
+		c.PreReg = rapid.IntRange(0, 8).Draw(t, "prereg")
 		for i := 0; i < n; i++ {
-			w := Worker{Script: sg.Draw(t, "script"), Reuse: rapid.Bool().Draw(t, "reuse")}
+			w := Worker{Script: sg.Draw(t, "script"), Reuse: rapid.Bool().Draw(t, "reuse"), List: rapid.IntRange(0, 2).Draw(t, "list") == 0}
 			for j, k := 0, rapid.IntRange(1, 4).Draw(t, "renders"); j < k; j++ {
 				w.Renders = append(w.Renders, rapid.SampledFrom(palette).Draw(t, "style"))
 				f := 0
@@ -79,3 +84,20 @@ func caseGen() *rapid.Generator[Case] {
 }
 
 func TestProp(t *testing.T) { prop.Rapid(t, caseGen()) }
+
+// TestSizes walks the registry through every size from the built-ins alone to 40 names (one more application
+// decoration per step) and at each size lets goroutines take the listings and render while others read the registry.
+func TestSizes(t *testing.T) {
+	s := gen.S
+	script := gen.Script{Ops: []gen.Op{{K: "hdr", Items: []gen.Item{s("k"), s("value")}}, {K: "rowitems", Items: []gen.Item{s("a"), s("b\nc")}}}}
+	for n := 0; n <= 34; n++ {
+		c := Case{Registry: true, Reps: 2, PreReg: n, Barrier: n%2 == 0, Proto: n % 10}
+		for i := 0; i < 4; i++ {
+			c.Workers = append(c.Workers, Worker{Script: script, Renders: []string{Styles[(n+i)%len(Styles)], "utf8-light"}, List: true})
+		}
+		if v := prop.Eval(c); v != nil {
+			t.Fatalf("VIOLATION %s", ID)
+		}
+	}
+	ev.R().Sub(ev.SubRun{Name: "registry-sizes", Bound: "registry sizes 6..40 in order, 4 goroutines taking the listings and rendering plus a registry reader at each size", Cases: 35, Exhaustive: true})
+}
